@@ -183,7 +183,7 @@ def encodings(ctx, n):
                     cls='enc:subgroup-free' if tf else 'enc:subgroup-torsion')
     for c, e in vals.ristretto_encodings(rng, 20 + n):
         m = ref.ristretto_decode(e)
-        ctx.add('gp.rs_frombytes', e.hex(), expect=(['some', e.hex()] if m is not None else ['none']), cls='enc:ristretto')
+        ctx.add('gp.rs_frombytes', e.hex(), expect=(['some', e.hex(), 'some', e.hex()] if m is not None else ['none', 'none']), cls='enc:ristretto')
 
 
 def points(ctx, n):
@@ -232,7 +232,7 @@ def task(prop, seed, size_, cfgbins):
 
 def run(prop, tier, seed, t0):
     from .. import plan
-    cfgs = ['simd', 'serial32'] if tier == 'quick' else plan.ALL_CFGS
+    cfgs = ['simd', 'serial32', 'fiat64'] if tier == 'quick' else plan.ALL_CFGS
     bins, notes, failed = plan.bins_for(cfgs, ('rel', 'chk') if tier == 'thorough' else ('rel',))
     if failed:
         return plan.fail_build(prop, failed)
